@@ -386,6 +386,7 @@ Inductive op :=
 | OGet (name : string)
 | OUninstall (name : string)
 | OVerify (name : string)
+| OVerifyAbsent                      (* a signature without the verificationPlugin attribute *)
 | OInstall (src : string) (overwrite : bool)
 | OList (root_exists : bool) (entries : list (string * ekind))
 | OPath (name : string).
@@ -406,6 +407,7 @@ Definition exec_op (i : input) : outcome :=
   | OUninstall name =>
       let '(e, w', l) := uninstall w root name in mk_out e MNone w' l []
   | OVerify name => verify_lookup w root name
+  | OVerifyAbsent => mk_out ENone MNone w [] []       (* no plugin: the manager is not called *)
   | OInstall src ow => install w root src ow
   | OList ex es => mk_out ENone MNone w [] (list_plugins ex es)
   | OPath name =>
@@ -565,6 +567,7 @@ Definition spec_ok (i : input) (o : obs) : bool :=
   | OGet name => name_ok i o false false name
   | OUninstall name => name_ok i o false true name
   | OVerify name => name_ok i o true false name
+  | OVerifyAbsent => no_effects o && err_eqb (o_err o) ENone
   | OInstall src _ => install_ok i o src
   | OList ex es =>
       no_effects o
